@@ -7,7 +7,7 @@
   Clauses of the property text and where they are:
    (a) "Setting a parameter on a parameter group sets it on every nested group that declares it, so a time
        window set at the top level applies to every drawn object"
-         C19_setattr_declared, C19_setattr_frame, C19_setattr_undeclared, C19_setattr_spec,
+         C19_setattr_declared, C19_setattr_frame, C19_setattr_undeclared, C19_setattr_spec, C19_setAt_declared,
          C19_window_everywhere, C19_postInit_window, C19_window_reaches_drawing
    (b) "the obstacle shapes drawn are exactly the occupancies the model reports …"
          C19_dynamic_drawn_eq_model, C19_static_drawn_eq_model, C19_env_drawn_eq_model,
@@ -118,9 +118,15 @@ theorem C19_setattr_uninitialised (fs : Fields) (name : String) (v : Val) :
     (Grp.mk false fs).set name v = Grp.mk false (fs.assign name v) := by
   simp [Grp.set]
 
-/-- The path-addressed form used by the correspondence is `set` on the group the path leads to. -/
-theorem C19_setAt_nil (g : Grp) (name : String) (v : Val) : g.setAt name v [] = some (g.set name v) := by
-  cases g; simp [Grp.setAt]
+/-- The path-addressed form used by the correspondence, `setattr(follow(root, p), name, v)`, succeeds whenever
+    `p` leads to a group and is `set name v` on that group; hence everything nested in that group, at any depth,
+    that declares `name` holds `v` afterwards (assignment on a sub-group, e.g. `params.dynamic_obstacle.time_begin`). -/
+theorem C19_setAt_declared (g h h' : Grp) (p q : List String) (name : String) (v : Val)
+    (hat : g.at p = some (.grp h)) (hi : h.allInit = true) (hq : name ∉ q)
+    (hat' : h.at q = some (.grp h')) (hd : h'.declares name = true) :
+    ∃ g' k, g.setAt name v p = some g' ∧ g'.at p = some (.grp k) ∧ k.at (q ++ [name]) = some v := by
+  obtain ⟨g', e1, e2⟩ := setAt_at p g h name v hat
+  exact ⟨g', h.set name v, e1, e2, C19_setattr_declared h h' q name v hi hq hat' hd⟩
 
 /-- A time window set at the top level is the window of every nested group, at any depth. -/
 theorem C19_window_everywhere (g h : Grp) (p : List String) (tb te : String)
@@ -146,6 +152,26 @@ theorem C19_window_everywhere (g h : Grp) (p : List String) (tb te : String)
     show ((g.set "time_begin" (.atom tb)).set "time_end" (.atom te)).at (p ++ ["time_begin"]) = _
     rw [C19_setattr_frame _ _ _ _ hi' hq, h1]; rfl
   · exact C19_setattr_declared _ _ p "time_end" (.atom te) hi' hp2 hat' hd2'
+
+/-- The parameter groups from which the drawing functions read their window
+    (mp_renderer.py:487, 518-519, 658-659, 692, 735-740, 927; traffic_sign.py create_img_boxes_traffic_lights). -/
+def drawPaths : List (List String) :=
+  [["dynamic_obstacle"], ["dynamic_obstacle", "trajectory"], ["static_obstacle"], ["phantom_obstacle"],
+   ["environment_obstacle"], ["lanelet_network"], ["lanelet_network", "traffic_light"], ["trajectory"]]
+
+/-- "… so a time window set at the top level applies to every drawn object": after
+    `params.time_begin = tb; params.time_end = te` every group a drawing function reads its window from holds
+    `(tb, te)` — the hypothesis `Flags.plainAt`'s window equalities of `C19_drawn_eq_model` are established by it. -/
+theorem C19_window_reaches_drawing (g : Grp) (tb te : String) (hi : g.allInit = true)
+    (hex : ∀ p ∈ drawPaths, ∃ h, g.at p = some (.grp h) ∧ h.declares "time_begin" = true ∧ h.declares "time_end" = true) :
+    let g' := (g.set "time_begin" (.atom tb)).set "time_end" (.atom te)
+    ∀ p ∈ drawPaths, g'.at (p ++ ["time_begin"]) = some (.atom tb) ∧ g'.at (p ++ ["time_end"]) = some (.atom te) := by
+  intro g' p hp
+  obtain ⟨h, hat, hd1, hd2⟩ := hex p hp
+  have hn : "time_begin" ∉ p ∧ "time_end" ∉ p := by
+    simp only [drawPaths, List.mem_cons, List.not_mem_nil, or_false] at hp
+    rcases hp with rfl | rfl | rfl | rfl | rfl | rfl | rfl | rfl <;> exact ⟨by decide, by decide⟩
+  exact C19_window_everywhere g h p tb te hi hn.1 hn.2 hat hd1 hd2
 
 /-- One re-assignment of `__post_init__` on a fully initialised tree that holds an atom under `name`. -/
 theorem reassign_ok (g : Grp) (name a : String) (hg : g.get name = some (.atom a)) :
